@@ -734,7 +734,7 @@ structure DecorAllowed (rule : Rule) (k : Nat) (z er sae : Bool) : Prop where
   hsae : sae = true → (rule.sae = true ∨ rule.er = true)
 
 /-- what the parser returned for a VEX-family MEMORY form, in terms of the rule -/
-structure VexParsedM (rule : Rule) (p : Parsed) (mb : BitVec 8) (pfx : List (BitVec 8)) (k : Nat) (z : Bool) : Prop where
+structure VexParsedM (rule : Rule) (p : Parsed) (mb : BitVec 8) (pfx : List (BitVec 8)) (k : Nat) (z bb : Bool) : Prop where
   hvk : p.vexKind = 2 ∨ p.vexKind = 3 ∨ p.vexKind = 4 ∨ p.vexKind = 5
   hpfx : p.prefixes = pfx
   hrex : p.rex = none
@@ -746,8 +746,8 @@ structure VexParsedM (rule : Rule) (p : Parsed) (mb : BitVec 8) (pfx : List (Bit
   hw : wWant rule = 2 ∨ p.W = (wWant rule == 1)
   hl : rule.l = 3 ∨ p.L = rule.l
   hl1 : p.vexKind ≠ 4 → p.L ≤ 1
-  hev : p.vexKind = 4 → (p.aaa = k ∧ p.z = z ∧ p.b = false ∧ p.map < 8)
-  hnk : p.vexKind ≠ 4 → k = 0 ∧ z = false
+  hev : p.vexKind = 4 → (p.aaa = k ∧ p.z = z ∧ p.b = bb ∧ p.map < 8)
+  hnk : p.vexKind ≠ 4 → k = 0 ∧ z = false ∧ bb = false
 
 /-- rule side for memory forms: ModRM.mod may (or must) be a memory mode -/
 structure VexRuleM (rule : Rule) (nimm : Nat) : Prop where
@@ -766,13 +766,13 @@ structure VexRuleM (rule : Rule) (nimm : Nat) : Prop where
 
 /-- shape [reg, vvvv, MEM] with a 64-bit-addressed, non-VSIB memory operand without segment / broadcast: all conditions of the monitor hold -/
 theorem vex_rvm_mem_formOk (ctx : Spec.X86.Ctx) (rule : Rule) (p : Parsed) (mb : BitVec 8) (bytes pfx : List (BitVec 8))
-    (k0 k1 : RegKind) (f0 f1 f2 : FormOp) (i0 i1 : Nat) (m : MemOp) (k : Nat) (z : Bool)
+    (k0 k1 : RegKind) (f0 f1 f2 : FormOp) (i0 i1 : Nat) (m : MemOp) (k : Nat) (z bb : Bool)
     (hm64 : ctx.mode64 = true) (hmode : (rule.modes &&& 2 != 0) = true) (hk0 : PlainKind k0) (hk1 : PlainKind k1)
     (R : VexRuleM rule 0) (hf0 : f0.role = .reg) (hf1 : f1.role = .vvvv) (hf2 : f2.role = .rm)
-    (K : PfxCounts pfx m) (D : DecorAllowed rule k z false false) (hvs : vsibOf m = .none) (hbc : m.bcst = 0)
+    (K : PfxCounts pfx m) (D : DecorAllowed rule k z false false) (hvs : vsibOf m = .none) (hbc : (m.bcst != 0) = bb) (hbr : bb = true → rule.bcst = true)
     (hal : alignOps rule.oszEff rule.ops [.reg k0 i0, .reg k1 i1, .mem m] =
            some [(f0, some (.reg k0 i0)), (f1, some (.reg k1 i1)), (f2, some (.mem m))])
-    (hparse : parse true rule bytes = .ok p) (P : VexParsedM rule p mb pfx k z)
+    (hparse : parse true rule bytes = .ok p) (P : VexParsedM rule p mb pfx k z bb)
     (hreg : regNum p.R' p.R (bits mb 3 3) = i0)
     (hvv : regNum p.V' false p.vvvv = i1)
     (hcm : checkMem ctx rule p m = .ok ()) :
@@ -809,8 +809,11 @@ theorem vex_rvm_mem_formOk (ctx : Spec.X86.Ctx) (rule : Rule) (p : Parsed) (mb :
        · obtain ⟨a, zz, b, mm⟩ := hev h4
          rw [hmap] at mm
          simp [h4, allOk, a, zz, b, mm]
-       · obtain ⟨k0', z0'⟩ := hnk h4
-         simp [h4, allOk, k0', z0'])
+       · obtain ⟨k0', z0', b0'⟩ := hnk h4
+         simp [h4, allOk, k0', z0', b0'])
+    | (cases bb
+       · exact Or.inl rfl
+       · exact Or.inr (hbr rfl))
     | (by_cases h : k = 0
        · exact Or.inl h
        · exact Or.inr (dk h))
